@@ -285,6 +285,8 @@ class UnjellyDottedType(_Sink):
 
 
 CONTRACTS = [UnjellyModule, UnjellyClass, UnjellyFunction, UnjellyDottedType]
+for _k in CONTRACTS:
+    _k.replay_decides = False  # the security policy and the dotted-name split are uninterpreted: not part of the inputs a replay gets
 BOUNDED = bounded("C45")
 _SCOPE = ('real jelly.unjelly under 8 SecurityOptions policies built through the public allow*() calls: a grammar of s-expressions over module / class / function / instance / method / reference / persistent tags and about 70 names (os.system, subprocess.Popen, builtins.eval, aliases of forbidden modules inside allowed ones, malformed dotted names) in 15 wrappers and 25 malformed shapes, 3000 random nested expressions; canary modules and classes, import spies and a walk of the returned object graph decide whether anything outside the policy was resolved, imported or instantiated; round trip of all 1-2 node (thorough 3) object graphs and 20000 random 3-5 node graphs with shared and cyclic references')
 NOTES = dict(explanation="the three name-resolving atoms proved to call no resolver before the policy accepted the module and to return "
